@@ -169,7 +169,7 @@ def _build_locked(cfg, cc, cflags, ldflags, th, out, stamp, quiet):
     return out
 
 
-def build_harness(cfg, name, srcs, extra_cflags="", extra_ldflags="", lib_static=True):
+def build_harness(cfg, name, srcs, extra_cflags="", extra_ldflags="", lib_static=True, harness_cflags=None):
     """Compile C harness files (paths relative to /verif/drv) against the
     library built in configuration cfg; returns executable path."""
     libdir = build(cfg)
@@ -177,11 +177,12 @@ def build_harness(cfg, name, srcs, extra_cflags="", extra_ldflags="", lib_static
     h = hashlib.sha256()
     for s in srcs:
         h.update(open(os.path.join(VERIF, "drv", s), "rb").read())
-    h.update((extra_cflags + extra_ldflags).encode())
+    h.update((extra_cflags + extra_ldflags + str(harness_cflags)).encode())
     exe = os.path.join(libdir, "%s-%s" % (name, h.hexdigest()[:12]))
     if os.path.exists(exe):
         return exe
-    cmd = [cc] + cflags.split() + extra_cflags.split() + [WARN, "-I" + os.path.join(REPO, "include"),
+    hc = cflags if harness_cflags is None else harness_cflags
+    cmd = [cc] + hc.split() + extra_cflags.split() + [WARN, "-I" + os.path.join(REPO, "include"),
            "-I" + os.path.join(REPO, "src"), "-I" + os.path.join(VERIF, "drv")] + \
           [os.path.join(VERIF, "drv", s) for s in srcs] + \
           [os.path.join(libdir, "libbee2.a")] + ldflags.split() + extra_ldflags.split() + \
